@@ -477,6 +477,18 @@ def run(rep, tier):
     rep.ob("R15.8", "no-plan-wide-copy-per-clause|validate_plan", bool(heads_) and not copies,
            "validate_plan clones a collection inside its loop over the clauses: a plan of n creating clauses costs n^2 to validate - a 256 KiB MUTATE block of "
            "CREATE CONCEPT clauses takes 10 s, and a request may batch 256 of them", (copies[0].where() if copies else vp_.file))
+    # every punctuation token of the grammar may be preceded by trivia: a `char(..)` parser applied to the raw input at the start of a
+    # token-level parser (not wrapped in ws) makes `"is_a" {1,3}` a syntax error where `"is_a"{1,3}` parses
+    pq = prog.fn(P + "::common::path_quantifier")
+    first = sorted((e for e in pq.calls() if re.search(r"Parser>?::parse$|::parse$", e.name or "")), key=lambda e: (e.line, e.block))
+    bare = False
+    if first:
+        org = pq.slice_back_op(first[0].args[0], through=lambda ev: False) if first[0].args else []
+        bare = any(o[0] == "call" and re.search(r"character::complete::char$", o[1].name or "") for o in org) and not any(
+            o[0] == "call" and re.search(r"common::ws$", o[1].name or "") for o in org)
+    rep.ob("R15.8", "token-preceded-by-trivia|path_quantifier", bool(first) and not bare,
+           "path_quantifier starts with a bare char('{') on the raw input: `\"is_a\" {1,3}` is a syntax error while `\"is_a\"{ 1 , 3 }` parses - the parsed command "
+           "depends on inter-token whitespace", pq.file + ":%d" % pq.line)
     isws = lambda g: any(re.search(r"char::methods::<impl char>::is_whitespace$", e.name or "") for k_ in [g] + list(prog.closures_of(g)) for e in k_.events)
     sk = prog.fn(P + "::json::skip_ws_and_comments")
     t1 = prog.fn(P + "::common::trivia1")
